@@ -2,6 +2,7 @@
 (* code -> spec for fit_to_variational_target.  One ndjson line per execution:              *)
 (*   cfg {steps, rb}   script (loss as a function of the update count, index theta+1)       *)
 (*   ev  [{k:"loss", key, theta, grad} | {k:"update"}]    ret {theta, nl, losses}           *)
+(*   a script value 0 stands for a NaN loss                                                 *)
 EXTENDS Integers, Sequences, FiniteSets, TLC, Json, IOUtils, FitCommon
 CONSTANTS Layer, Skip
 Traces == ndJsonDeserialize(IOEnv.TRACE_FILE)
@@ -25,7 +26,7 @@ Step ==
      /\ GI("LossSeesCurrentParams", e.theta = params)
      /\ losses' = Append(losses, v)
      /\ evalAt' = Append(evalAt, e.theta)
-     /\ best' = IF v = MinOfSet(SeqRange(losses) \cup {v}) THEN e.theta ELSE best
+     /\ best' = IF v # 0 /\ v = MinOfSet((SeqRange(losses) \ {0}) \cup {v}) THEN e.theta ELSE best
      /\ keys' = keys \cup {e.key}
   /\ params' = params + 1 /\ step' = step + 1 /\ l' = l + 2
   /\ UNCHANGED <<tid, pass>>
@@ -34,8 +35,9 @@ Return ==
   /\ pass = "loop" /\ l = Len(Ev) + 1
   /\ G("ExactlySteps", step = T.cfg.steps)
   /\ G("OneLossPerStep", T.ret.nl = T.cfg.steps /\ T.ret.losses = losses)
-  /\ (T.cfg.rb /\ losses # <<>> =>
-        G("ReturnsArgmin", \E k \in DOMAIN losses : losses[k] = MinOfSet(SeqRange(losses)) /\ T.ret.theta = evalAt[k]))
+  \* a script value 0 stands for a NaN loss (only after the first step): the minimum is over the losses that are numbers
+  /\ (T.cfg.rb /\ SeqRange(losses) \ {0} # {} =>
+        G("ReturnsArgmin", \E k \in DOMAIN losses : losses[k] = MinOfSet(SeqRange(losses) \ {0}) /\ T.ret.theta = evalAt[k]))
   /\ (T.cfg.rb => GI("ReturnsLatestArgmin", T.ret.theta = best))
   /\ (~T.cfg.rb \/ losses = <<>> => G("ReturnsLast", T.ret.theta = params))
   /\ pass' = "done" /\ l' = l + 1
